@@ -3,4 +3,5 @@ pub mod extract;
 pub mod proj;
 pub mod report;
 pub mod gen_types;
+pub mod asn_text;
 pub mod props;
